@@ -127,6 +127,12 @@ impl<T> Write for WebsocketStreamWrapper<T> where T : Read + Write {
             Ok(()) => {
                 Ok(buf.len())
             }
+            // The message has been queued inside tungstenite and will go out with later calls; only the attempt to
+            // flush it to the socket would have blocked.  The bytes are consumed: reporting WouldBlock here would make
+            // the caller offer them again, and they would be sent twice.
+            Err(Error::Io(io_error)) if io_error.kind() == ErrorKind::WouldBlock => {
+                Ok(buf.len())
+            }
             Err(err) => {
                 Err(map_tungstenite_error_to_io_error(err))
             }
